@@ -22,6 +22,8 @@ PI = ('self', 'player_indices')
 
 
 def run(chk, ctx) -> None:
+    from .helpers import sign_helper
+    sign_helper(chk, ctx, 'C13.helpers')
     fi = ctx.sfi('_begin_betting')
     sev = SEval(ctx.prog)
     members = set(sev.enum_members('Opening'))
